@@ -862,6 +862,134 @@ fn store_layer(run: &Run) {
     }
 }
 
+
+// ---- the contacts endpoint: untrusted text over HTTP ------------------------------------------
+
+/// `ContactsFetcher` downloads a contacts list — a cache file in JSON or one multiaddress per line — from an URL the
+/// operator names (or the built-in ones) and parses whatever comes back. The harness is the web server: a loopback
+/// listener answering every request with status 200 and the body under test.
+fn contacts_endpoint(cx: &Ctx, thorough: bool) {
+    use std::io::{Read, Write};
+    let listener = std::net::TcpListener::bind("127.0.0.1:0").expect("loopback listener");
+    let port = listener.local_addr().unwrap().port();
+    let body: std::sync::Arc<std::sync::Mutex<Vec<u8>>> = Default::default();
+    let b2 = body.clone();
+    std::thread::spawn(move || {
+        for conn in listener.incoming() {
+            let Ok(mut c) = conn else { continue };
+            let mut req = Vec::new();
+            let mut buf = [0u8; 1024];
+            while !req.windows(4).any(|w| w == b"\r\n\r\n") {
+                match c.read(&mut buf) {
+                    Ok(0) | Err(_) => break,
+                    Ok(n) => req.extend_from_slice(&buf[..n]),
+                }
+            }
+            let b = b2.lock().unwrap().clone();
+            let _ = c.write_all(format!("HTTP/1.1 200 OK\r\nContent-Type: text/plain\r\nContent-Length: {}\r\nConnection: close\r\n\r\n", b.len()).as_bytes());
+            let _ = c.write_all(&b);
+        }
+    });
+    let rt = tokio::runtime::Builder::new_current_thread().enable_all().build().unwrap();
+    let url: url::Url = format!("http://127.0.0.1:{port}/contacts").parse().unwrap();
+    let fetch = |cx: &Ctx, what: serde_json::Value, key: &[u8], bytes: &[u8], ignore_peer_id: bool| -> Option<Vec<String>> {
+        *body.lock().unwrap() = bytes.to_vec();
+        let r = cx.call("ContactsFetcher::fetch_addrs", what, key, true, || {
+            rt.block_on(async {
+                let mut f = ant_bootstrap::ContactsFetcher::with_endpoints(vec![url.clone()]).expect("fetcher");
+                f.ignore_peer_id(ignore_peer_id);
+                // an answer the fetcher cannot use makes it ask again after a pause; the harness does not wait for that
+                tokio::time::timeout(std::time::Duration::from_millis(2500), f.fetch_addrs()).await
+            })
+        });
+        match r {
+            Some(Ok(Ok(v))) => Some(v.iter().map(|a| a.to_string()).collect()),
+            Some(Err(_)) => {
+                cx.run.count("contacts_answers_the_fetcher_kept_retrying_on", 1);
+                None
+            }
+            _ => None,
+        }
+    };
+    // the fetcher must get through to the harness at all (otherwise everything below is vacuous)
+    let p1 = rigs::fixtures::peer_id(1);
+    let p2 = rigs::fixtures::peer_id(2);
+    let good1 = format!("/ip4/10.0.0.1/udp/1200/quic-v1/p2p/{p1}");
+    let good2 = format!("/ip4/10.0.0.2/tcp/1300/ws/p2p/{p2}");
+    match fetch(cx, json!("two valid lines"), b"sanity", format!("{good1}\n{good2}").as_bytes(), false) {
+        Some(v) if v.len() == 2 => {}
+        other => cx.run.machinery_error(&format!("the contacts fetcher does not reach the harness's web server: {other:?}")),
+    }
+    // (a) line lists: every sequence of <= 3(4) lines over a line alphabet, both settings of ignore_peer_id;
+    // what comes back must be exactly the lines that are usable addresses (as a set: the order is not promised)
+    let lines: Vec<String> = vec![
+        good1.clone(),
+        good2.clone(),
+        "/ip4/10.0.0.3/udp/1203/quic-v1".into(),
+        format!("/ip6/::1/udp/1205/quic-v1/p2p/{p1}"),
+        "".into(),
+        "   ".into(),
+        "<html><body>502 Bad Gateway</body></html>".into(),
+        format!("{good1}\r"),
+        "/ip4/999.1.1.1/udp/1/quic-v1".into(),
+    ];
+    enumerate::sequences(&lines, if thorough { 4 } else { 3 }, |seq| {
+        let text = seq.join("\n");
+        for ignore in [false, true] {
+            let got = fetch(cx, json!({"lines": seq, "ignore_peer_id": ignore}), format!("lines:{text}#{ignore}").as_bytes(), text.as_bytes(), ignore);
+            if let Some(got) = got {
+                let want: Vec<String> = seq.iter().filter_map(|l| ant_bootstrap::craft_valid_multiaddr_from_str(l, ignore)).map(|a| a.to_string()).collect();
+                let (mut g, mut w) = (got.clone(), want.clone());
+                g.sort();
+                w.sort();
+                if g != w {
+                    cx.run.violation("format-parse-roundtrip", "ContactsFetcher::fetch_addrs", format!("a contacts list of the lines {seq:?} (ignore_peer_id = {ignore}) yields {got:?}, its usable lines are {want:?}"), json!({"lines": seq, "ignore_peer_id": ignore}));
+                }
+            }
+        }
+    });
+    // (b) a cache file in JSON, and every structural single-token mutation (thorough: every truncation too) of it
+    let dir = mc_core::scratch_root().join("c17-contacts");
+    std::fs::create_dir_all(&dir).unwrap();
+    let (_, text) = cache_seed(&dir);
+    match fetch(cx, json!("seed cache as JSON"), b"json-seed", text.as_bytes(), false) {
+        Some(v) if v.len() == 2 => {}
+        other => cx.run.machinery_error(&format!("the seed cache served as a contacts file yields {other:?}, expected one address for each of its 2 peers")),
+    }
+    json_mutations(&text, thorough, |m, how| {
+        fetch(cx, json!({"json_mutation": how}), format!("json:{how}").as_bytes(), m.as_bytes(), false);
+    });
+    // (c) foreign bodies
+    let mut foreign: Vec<Vec<u8>> = vec![
+        vec![],
+        b"\n".to_vec(),
+        b"\n\n\n".to_vec(),
+        vec![0xff, 0xfe],
+        b"[]".to_vec(),
+        b"{}".to_vec(),
+        b"null".to_vec(),
+        b"{\"peers\":{},\"last_updated\":{\"secs_since_epoch\":0,\"nanos_since_epoch\":0},\"network_version\":\"\"}".to_vec(),
+        b"{\"nodes\":[]}".to_vec(),
+        b"<!DOCTYPE html>\n<html><head><title>Not found</title></head>\n<body>404</body></html>\n".to_vec(),
+    ];
+    for k in (0..=if thorough { 600usize } else { 200 }).step_by(1) {
+        let mut t = "/".repeat(k);
+        t.push_str(if k % 2 == 0 { "\u{e9}" } else { "\u{20ac}" });
+        t.push_str(&"y".repeat(300usize.saturating_sub(k)));
+        foreign.push(t.into_bytes());
+    }
+    for (i, b) in foreign.iter().enumerate() {
+        for ignore in [false, true] {
+            if let Some(got) = fetch(cx, json!({"foreign_body": i, "ignore_peer_id": ignore}), format!("foreign{i}#{ignore}").as_bytes(), b, ignore) {
+                if !got.is_empty() {
+                    cx.run.violation("format-parse-roundtrip", "ContactsFetcher::fetch_addrs", format!("foreign body {i} yields contacts {got:?}"), json!({"foreign_body": i}));
+                }
+            }
+        }
+    }
+    let _ = std::fs::remove_dir_all(&dir);
+}
+
 pub fn main(tier: Option<&str>) {
     let run = Run::new("C17", "exploration", tier);
     let thorough = !run.quick();
@@ -871,6 +999,7 @@ pub fn main(tier: Option<&str>) {
          all strings <=4 over a 9-character alphabet for amounts, every sequence of <=4(5) multiaddr protocol tokens, every \
          truncation and structural single-token mutation of a valid cache file / registry file, every byte string <=1(2) plus all \
          sequences <=3(4) over 24 msgpack marker bytes and every truncation / substitution of real record encodings, 7 bodies under record keys of every length 0..=40, 64, 255, 1000; \
+         a contacts endpoint (the harness as loopback web server, real ContactsFetcher::fetch_addrs): every sequence of <=3(4) lines over 9 line shapes x ignore_peer_id, the seed cache as JSON with every structural mutation, 10 foreign bodies and a multi-byte character at every offset 0..=200(600) — no panic, and exactly the usable lines come back; \
          a node's record directory holding one planted file (35 file names: hex of every length 1..=18, 32, 63..66, 130, upper case, non-hex, non-ASCII, nested x 8 contents) opened by the real store, twice; for every text \
          parser additionally strings with one 2-, 3- or 4-byte character at every byte offset 0..=120/200(600), followed by 0, 1 or 40 fillers. \
          A case is non-trivial when it reaches past the first syntactic check (even-length hex, decimal-shaped, well-formed tokens).",
@@ -888,6 +1017,8 @@ pub fn main(tier: Option<&str>) {
     multiaddrs(&cx, thorough);
     run.sample(json!({"craft_valid_multiaddr_from_str": "/ip4/1.2.3.4/udp/1200/quic-v1/p2p/<peer>/p2p-circuit"}));
     cache_files(&cx, thorough);
+    contacts_endpoint(&cx, thorough);
+    run.sample(json!({"ContactsFetcher::fetch_addrs": "HTTP 200 with an empty body"}));
     registry_files(&cx, thorough);
     run.sample(json!({"NodeRegistry::from_json": "seed with token 17 := 4294967296"}));
     record_bytes(&cx, thorough);
